@@ -1,3 +1,4 @@
+import MemVerif.Lemmas.C01CollArr
 import MemVerif.Lemmas.C01Coll
 import MemVerif.Props.C03
 /-!
@@ -91,5 +92,38 @@ theorem C03_coll_try_keeps_partial (cfg : Cfg) {arr arrLen : Nat} {c : Coll} {li
     have := Coll.tryAllocateNode_inv cfg hI hf size
     rw [hout] at this
     exact this
+
+/-! ### arrays -/
+
+/-- **C03 (a failed array request preserves), collections.** Whatever way `allocate_array` fails — `bad_node_size`,
+`bad_array_size` in the third stage, `out_of_memory` from the block source in the second or third stage, after memory was
+already reserved and inserted — the ledger is untouched and the invariant holds for it. -/
+theorem C03_coll_array_failure_preserves_partial (cfg : Cfg) {arr arrLen : Nat} {c : Coll} {live : List (Nat × Nat)}
+    (hI : CInv arr arrLen c live) (hf : cfg.fence ≤ 2 ^ 32) (count size : Nat) (env : List (Option Nat))
+    (hb : BlocksOk (c.allocateArray cfg count size env).st.arena.used)
+    (hout : ∀ a, (c.allocateArray cfg count size env).out ≠ .ok a) :
+    CInv arr arrLen (c.allocateArray cfg count size env).st live := by
+  have := Coll.allocateArray_inv cfg hI hf count size env hb
+  rwa [ledgerArr_not_ok _ _ _ _ hout] at this
+
+/-- `try_allocate_array`: never throws, no upstream event, arena untouched, and a `nullptr` answer keeps ledger and
+invariant -/
+theorem C03_coll_try_array_keeps_partial (cfg : Cfg) {arr arrLen : Nat} {c : Coll} {live : List (Nat × Nat)}
+    (hI : CInv arr arrLen c live) (hf : cfg.fence ≤ 2 ^ 32) (count size : Nat) :
+    (c.tryAllocateArray cfg count size).ev = [] ∧ (∀ ex, (c.tryAllocateArray cfg count size).out ≠ .throws ex) ∧
+    (c.tryAllocateArray cfg count size).st.arena = c.arena ∧
+    ((c.tryAllocateArray cfg count size).out = .null → CInv arr arrLen (c.tryAllocateArray cfg count size).st live) := by
+  obtain ⟨t1, t2, t3⟩ := C03.C03_try_coll_array cfg c count size
+  refine ⟨t2, t1, t3, ?_⟩
+  intro hout
+  have := Coll.tryAllocateArray_inv cfg hI hf count size
+  rwa [ledgerArr_not_ok _ _ _ _ (by rw [hout]; intro a h; cases h)] at this
+
+/-- `reserve(size, capacity)` never hands anything out and keeps ledger and invariant whether or not it succeeds -/
+theorem C03_coll_reserve_keeps_partial (cfg : Cfg) {arr arrLen : Nat} {c : Coll} {live : List (Nat × Nat)}
+    (hI : CInv arr arrLen c live) (hf : cfg.fence ≤ 2 ^ 32) (size : Nat) {capacity : Nat} (hcap : capacity < 2 ^ 64)
+    (env : List (Option Nat)) (hb : BlocksOk (c.reserveOp cfg size capacity env).st.arena.used) :
+    CInv arr arrLen (c.reserveOp cfg size capacity env).st live :=
+  Coll.reserveOp_inv cfg hI hf size hcap env hb
 
 end MemVerif.Props.C03Coll
